@@ -174,6 +174,26 @@ def check_c17(ctx, R):
         R.bad("I1", "%s|kept|%s" % (fix.key, "".join(sorted(kept - rb))), fix.loc(), "_characters_fix keeps %r, which the reader rejects" % "".join(sorted(kept - rb)))
     else:
         R.ok("I1", "characters kept by the repair are accepted by the reader", fix.loc())
+    # which first characters get the prefix: whatever is NOT prefixed goes through the replacement loop from position 0, so it
+    # must end up as a character the reader accepts at the start of an identifier without `&`
+    pguard = None
+    for n in walk_local(fix.node):
+        if isinstance(n, ast.If) and any(isinstance(a, ast.Assign) and isinstance(a.value, ast.BinOp) and isinstance(a.value.left, ast.Constant)
+                                         and isinstance(a.value.left.value, str) for a in n.body):
+            pguard = n.test
+    if pguard is None:
+        raise AnalysisError("I1: cannot find the guard of the prefix in _characters_fix")
+    try:
+        prefixed = {c for c in DOMAIN if eval_pred(pguard, c, "identifier[0]")}
+    except _Unknown as ex:
+        raise AnalysisError("I1: prefix guard `%s` is outside the evaluator" % ex)
+    bad_first = sorted(c for c in DOMAIN if c not in prefixed and (c if c in kept else repl) not in rf)
+    if bad_first:
+        R.bad("I1", "%s|unprefixed-first|%s" % (fix.key, "".join(bad_first)), fix.loc(),
+              "_characters_fix does not prefix a name starting with %r; the repair loop then leaves or produces a first character (%r) that the "
+              "reader rejects without the & prefix" % ("".join(bad_first), "".join(sorted({(c if c in kept else repl) for c in bad_first}))))
+    else:
+        R.ok("I1", "every first character the reader would reject gets the & prefix (%d of %d prefixed)" % (len(prefixed), len(DOMAIN)), fix.loc())
     if prefix == ["&"]:
         R.ok("I1", "non-alphabetic first character gets the & prefix", fix.loc())
     else:
